@@ -154,7 +154,7 @@ func TestVerifC16Tunnel(t *testing.T) {
 	defer run.Finish()
 	run.Rule("trial = started(or not) Tunnel over net.Pipe endpoints x K in {2,4,12} closers from 7 close entry points x completion path in {none, copy-finished, local-eof, ctx-cancel, not-started} x bytes moved first or not; spin barrier + seeded spins; distinct = (path,K,closer-mix class,overlap observed)")
 	r := run.Rand("trials")
-	n := run.Pick(30000, 300000)
+	n := run.Pick(15000, 300000)
 	batch := 1000
 	paths := []string{"none", "none", "copy-finished", "local-eof", "ctx-cancel", "not-started"}
 	ks := []int{2, 4, 12}
@@ -315,6 +315,9 @@ func c16JudgeTunnel(run *vk.Run, tr *c16Trial, when string) {
 		}
 		var reasons []any
 		tr.reasons.Range(func(k, v any) bool { reasons = append(reasons, v); return true })
+		if when == "after-quiescence" {
+			run.Count("trials_onClosed_not_once_path_"+tr.path, 1)
+		}
 		run.Violation("C16:tunnel|onClosed="+cls, map[string]any{"case": tr.desc, "onClosed_runs": got, "reasons": reasons, "when": when, "overlap_observed": tr.overlap})
 	}
 	if n := tr.client.notifies.Load(); n > 1 {
